@@ -43,6 +43,16 @@ type tok struct {
 	live func() bool
 	// whyDead names the class when the token is not acceptable under any type
 	whyDead string
+	// Issuer is the issuer the token was issued under when the provider's issuer depends on the request (multi.go);
+	// "" = a world with one static issuer, or a token of the partner IdP. IssuedAt names that view.
+	Issuer   string
+	IssuedAt string
+}
+
+// bound reports whether the token names its issuer (a JWT access token or an ID token): presented to another issuer
+// of the same provider instance it is a foreign token. Opaque access tokens and refresh tokens carry no issuer.
+func (t *tok) bound() bool {
+	return t.Issuer != "" && (t.Form == "jwt-access" || t.Form == "id-token")
 }
 
 func (t *tok) brief() string {
